@@ -849,15 +849,36 @@ func returnsFieldOfReceiver(h *ssa.Function, T, F string) bool {
 			continue
 		}
 		n := 0
+		// returns that can only be taken when the field is nil may hand back a literal nil
+		nonNil := reachUnder(h, func(cond ssa.Value) int {
+			if cmp, ok := cond.(*ssa.BinOp); ok && (isFieldLoad(cmp.X, T, F) || isFieldLoad(cmp.Y, T, F)) {
+				switch cmp.Op {
+				case token.NEQ:
+					return 1
+				case token.EQL:
+					return -1
+				}
+			}
+			return 0
+		})
 		for _, b := range h.Blocks {
 			ret, ok := b.Instrs[len(b.Instrs)-1].(*ssa.Return)
 			if !ok {
 				continue
 			}
-			if len(ret.Results) != 1 || !isFieldLoad(ret.Results[0], T, F) {
+			if len(ret.Results) == 0 {
 				return false
 			}
-			n++
+			// the field is the only result, or the last one (…, err)
+			last := ret.Results[len(ret.Results)-1]
+			if isFieldLoad(last, T, F) {
+				n++
+				continue
+			}
+			if k, isConst := last.(*ssa.Const); isConst && k.IsNil() && !nonNil[b] {
+				continue
+			}
+			return false
 		}
 		return n > 0
 	}
@@ -918,7 +939,9 @@ func hasCallers(p *Program, f *ssa.Function) bool {
 func isOnceClosure(p *Program, f *ssa.Function) bool {
 	par := f.Parent()
 	if par == nil {
-		return false
+		// a named function or method whose value (f, or x.f) is only ever handed to Once.Do
+		sites, only := onceDoSites(p, f)
+		return len(sites) > 0 && only
 	}
 	used, onlyOnce := false, true
 	for _, b := range par.Blocks {
@@ -1331,4 +1354,62 @@ func onlyRunsDuringInit(p *Program, f *ssa.Function, depth int) bool {
 		}
 	}
 	return true
+}
+
+// onceDoSites: the calls of (*sync.Once).Do in the module whose argument is f - as a function
+// literal, or as a method value (through the compiler's bound-method wrapper).  only reports
+// whether f is used nowhere else (not called directly, not stored, not passed elsewhere).
+func onceDoSites(p *Program, f *ssa.Function) (sites []*ssa.Call, only bool) {
+	only = true
+	isWrapperOf := func(w *ssa.Function) bool {
+		if w == nil || w.Synthetic == "" {
+			return false
+		}
+		for _, b := range w.Blocks {
+			for _, ins := range b.Instrs {
+				if call, ok := ins.(ssa.CallInstruction); ok && call.Common().StaticCallee() == f {
+					return true
+				}
+			}
+		}
+		return false
+	}
+	for g := range p.AllFns {
+		if !fnInModule(g) || g.Blocks == nil {
+			continue
+		}
+		if isWrapperOf(g) {
+			continue // the wrapper's own call of f
+		}
+		for _, b := range g.Blocks {
+			for _, ins := range b.Instrs {
+				var ops []*ssa.Value
+				for _, op := range ins.Operands(ops) {
+					if op == nil || *op == nil {
+						continue
+					}
+					var fn *ssa.Function
+					switch v := (*op).(type) {
+					case *ssa.MakeClosure:
+						fn, _ = v.Fn.(*ssa.Function)
+					case *ssa.Function:
+						fn = v
+					}
+					if fn == nil || !(fn == f || isWrapperOf(fn)) {
+						continue
+					}
+					if _, isMk := ins.(*ssa.MakeClosure); isMk {
+						continue // the creation of the function value; its uses are seen separately
+					}
+					call, ok := ins.(*ssa.Call)
+					if ok && call.Call.StaticCallee() != nil && call.Call.StaticCallee().String() == "(*sync.Once).Do" && len(call.Call.Args) == 2 {
+						sites = append(sites, call)
+					} else {
+						only = false
+					}
+				}
+			}
+		}
+	}
+	return sites, only
 }
